@@ -496,6 +496,9 @@ func replay(f family, hist []op) (fail string, failKind string) {
 	}
 	if f.vs {
 		e := vsched.Run(vsched.Options{Horizon: time.Hour}, func(e *vsched.Exec) { body() })
+		if e.HarnessErr != "" {
+			replayHarnessErrs = append(replayHarnessErrs, e.HarnessErr)
+		}
 		if fail == "" && len(e.Panics) > 0 {
 			fail, failKind = e.Panics[0], "panics"
 		}
@@ -512,6 +515,9 @@ func replay(f family, hist []op) (fail string, failKind string) {
 	}
 	return
 }
+
+// replayHarnessErrs: replays whose body did not run to its end (filed as harness errors by bfs).
+var replayHarnessErrs []string
 
 func names(l []int) string {
 	var s []string
@@ -618,6 +624,8 @@ func bfs(f family, depth int, r *vx.Report, deadline time.Time) {
 		frontier = next
 	}
 done:
+	r.HarnessErrs = append(r.HarnessErrs, replayHarnessErrs...)
+	replayHarnessErrs = nil
 	r.States += states
 	r.Transitions += trans
 	r.TracesValidated += trans
